@@ -35,10 +35,13 @@ def main():
         return 2
     pid = sys.argv[1]
     seed = int(sys.argv[2]) or 1
-    runs = int(sys.argv[3]) if len(sys.argv) > 3 else 300000
     target = TARGETS.get(pid)
     if target is None:
         return 0
+    # executions per instance: the history target runs a whole operation sequence with a battery
+    # after every step under ASan (about 250 exec/s), the others are much cheaper
+    default_runs = {"hist": 40000, "iter": 150000, "text": 300000, "bytes": 150000}[target]
+    runs = int(sys.argv[3]) if len(sys.argv) > 3 else default_runs
     b = subprocess.run(["cargo", "+nightly", "fuzz", "build", "--fuzz-dir", HERE, target], cwd=HERE, env=ENV, stdout=subprocess.PIPE, stderr=subprocess.STDOUT, text=True)
     if b.returncode != 0:
         log("fuzz build failed:\n" + "\n".join(b.stdout.splitlines()[-40:]))
@@ -60,14 +63,19 @@ def main():
                 cmd.append(seeds)
             cmd += ["-seed=%d" % (seed * 1000 + i + 1), "-runs=%d" % runs, "-len_control=0", "-max_len=2048", "-timeout=60", "-rss_limit_mb=4096", "-print_final_stats=1", "-artifact_prefix=" + arts]
             env = dict(ENV, FUZZ_MODE=pid, FUZZ_REPLAY_DIR=replay_dir)
-            procs.append((i, subprocess.Popen(cmd, cwd=work, env=env, stdout=subprocess.PIPE, stderr=subprocess.STDOUT, text=True)))
+            # output goes to a file: with pipes the instances that are not being read block once
+            # the pipe buffer is full (libFuzzer prints one line per new corpus unit)
+            logf = open(os.path.join(work, "log%d.txt" % i), "w")
+            procs.append((i, subprocess.Popen(cmd, cwd=work, env=env, stdout=logf, stderr=subprocess.STDOUT, text=True), logf))
         total_exec = 0
         cov = 0
         corpus_units = 0
         crashed = []
         infra = False
-        for i, p in procs:
-            out, _ = p.communicate()
+        for i, p, logf in procs:
+            p.wait()
+            logf.close()
+            out = open(os.path.join(work, "log%d.txt" % i), errors="replace").read()
             m = re.search(r"stat::number_of_executed_units:\s*(\d+)", out)
             if m:
                 total_exec += int(m.group(1))
